@@ -277,6 +277,21 @@ impl AcquisitionLedger {
         }
     }
 
+    /// Restate every lot in post-split units: share counts are multiplied by `factor`
+    /// and the unit price divided by it, so each lot's cost is unchanged.
+    pub fn rescale_quantities(&mut self, factor: Decimal) {
+        if factor == Decimal::ZERO {
+            return;
+        }
+        for lot in &mut self.lots {
+            lot.original_amount *= factor;
+            lot.consumed *= factor;
+            lot.reserved *= factor;
+            lot.in_pool *= factor;
+            lot.price /= factor;
+        }
+    }
+
     /// Get all lots.
     pub fn lots(&self) -> &[AcquisitionLot] {
         &self.lots
